@@ -920,6 +920,68 @@ def protocol_rule(index, rep, rid, modules):
     return n
 
 
+def _literal_predicate(test):
+    """(subject text, set of accepted literals, set of accepted prefixes) of a test made of ==, in, startswith and `or`; None if not of that form"""
+    if isinstance(test, ast.BoolOp) and isinstance(test.op, ast.Or):
+        subj, lits, pres = None, set(), set()
+        for v in test.values:
+            r = _literal_predicate(v)
+            if r is None or (subj is not None and r[0] != subj):
+                return None
+            subj = r[0]
+            lits |= r[1]
+            pres |= r[2]
+        return subj, lits, pres
+    if isinstance(test, ast.Compare) and len(test.ops) == 1:
+        l, r = test.left, test.comparators[0]
+        if isinstance(test.ops[0], ast.Eq):
+            if isinstance(r, ast.Constant) and isinstance(r.value, str):
+                return norm(l), {r.value}, set()
+            if isinstance(l, ast.Constant) and isinstance(l.value, str):
+                return norm(r), {l.value}, set()
+        if isinstance(test.ops[0], ast.In) and isinstance(r, (ast.Tuple, ast.List, ast.Set)) and r.elts and all(isinstance(e, ast.Constant) and isinstance(e.value, str) for e in r.elts):
+            return norm(l), {e.value for e in r.elts}, set()
+    if isinstance(test, ast.Call) and isinstance(test.func, ast.Attribute) and test.func.attr == "startswith" and len(test.args) == 1 and isinstance(test.args[0], ast.Constant) and isinstance(test.args[0].value, str):
+        return norm(test.func.value), set(), {test.args[0].value}
+    return None
+
+
+def shadowed_branch_rule(index, rep, rid, modules):
+    """In an if/elif chain that dispatches on string literals, every branch can be reached: no branch's literals are all
+    accepted by an earlier branch (the keyword would silently get the earlier branch's meaning)."""
+    n = 0
+    seen = set()
+    for m in modules:
+        for f in index.functions_in_module(m):
+            for node in walk_no_nested(f.node):
+                if not isinstance(node, ast.If):
+                    continue
+                chain = []
+                cur = node
+                while isinstance(cur, ast.If):
+                    chain.append(cur)
+                    cur = cur.orelse[0] if len(cur.orelse) == 1 and isinstance(cur.orelse[0], ast.If) else None
+                if len(chain) < 2:
+                    continue
+                preds = [_literal_predicate(c.test) for c in chain]
+                if sum(1 for p_ in preds if p_) < 2:
+                    continue
+                # only the head of a chain starts the analysis
+                if id(node) in seen:
+                    continue
+                for c in chain:
+                    seen.add(id(c))
+                for i, p_ in enumerate(preds):
+                    if not p_ or not p_[1] or p_[2]:
+                        continue
+                    n += 1
+                    earlier = [q for q in preds[:i] if q and q[0] == p_[0]]
+                    shadow = [lit for lit in p_[1] if any(lit in q[1] or any(lit.startswith(pre) for pre in q[2]) for q in earlier)]
+                    rep.check(len(shadow) < len(p_[1]) or not shadow, rid, f.qualname, "branch for %s is unreachable" % sorted(p_[1]), fn_where(f, chain[i]), "",
+                              "%s: the branch `%s` can never be taken - every keyword it tests (%s) is already accepted by an earlier branch of the same chain, so that keyword gets the earlier branch's meaning (a NEXUS `datatype=nucleotide` read as DNA, an option value silently treated as another)" % (f.qualname, norm(chain[i].test)[:60], ", ".join(sorted(shadow))))
+    return n
+
+
 NUMERIC_EXEMPT = {
     "dendropy.model.coalescent.discrete_time_to_coalescence:pop_size": "documented: a population size of 0 or None both mean 'time in population units'",
 }
@@ -950,6 +1012,11 @@ def generic_rules(prop, index, rep):
     with rep.section(rid5):
         npc = protocol_rule(index, rep, rid5, mods + ["dendropy.utility.error"])
         rep.ob(rid5, "src/dendropy", "%d in-place operator methods and format calls examined" % npc, True, nontrivial=npc > 0)
+    rid6 = "R%s.D" % prop[1:]
+    rep.rule(rid6, "literal dispatch chains in the property's modules have no dead branch: no branch of an if/elif chain over string keywords tests only keywords that an earlier branch already accepts")
+    with rep.section(rid6):
+        nd_ = shadowed_branch_rule(index, rep, rid6, mods)
+        rep.ob(rid6, "src/dendropy", "%d keyword branches examined" % nd_, True, nontrivial=nd_ > 0)
     rid2 = "R%s.V" % prop[1:]
     rep.rule(rid2, "right variable in nested loops: an inner loop over a collection derived from the outer item uses its own item")
     with rep.section(rid2):
